@@ -1,8 +1,14 @@
 /-
-C14 — helper lemmas, part 7: `run_prune` extended to join trees with harmless outer joins (`outerSafe`): the ON
-condition of an outer join yields no factor and no table of a NULL-supplying side is offered a factor from above, so
-NULL-supplying sides are scanned unfiltered and preserved sides only lose rows the conditions above reject.
-Used by `ForML.Props.C14` (`C14_filter_partial_outer`).
+C14 — helper lemmas, part 7: `run_prune` — pushing the offered row filters into the scans only removes rows the
+conditions pending above reject anyway, for every join kind, on every statement outside the regions of the findings
+C14-F1/F2 (`safe`; for the repaired parser: on every statement).
+
+Pending conditions per join kind (`P` above the join, `c` its ON condition):
+  inner/cross   both sides: `c ++ P`       (a row combination survives only if `c` and everything above hold)
+  left          preserved side: `P`          optional side: `c`   (a right row failing a factor of `c` never matches;
+  right         preserved side: `P`          optional side: `c`    unmatched left rows are NULL-extended either way)
+  full          both sides: nothing
+Used by `ForML.Props.C14` (`C14_filter_fixed`, `C14_filter_partial`).
 -/
 import ForML.Lemmas.C14Filter
 namespace ForML.PushDown
@@ -26,33 +32,39 @@ theorem dom_nullEnv (os : List Source) : dom (nullEnv os) = os := by
     exact ih
 
 /-- the environments of any join tree bind exactly its origins, in order -/
-theorem run_dom' (len : Bool) (S : Sem) (B : Backend) (db : Db) :
-    ∀ (s : Source) (st : Segs), ∀ e ∈ (run len S B db s st).envs, dom e = origins s
+theorem run_dom' (fix len : Bool) (S : Sem) (B : Backend) (db : Db) :
+    ∀ (s : Source) (st : Segs), ∀ e ∈ (run fix len S B db s st).envs, dom e = origins s
   | .table n fs, st, e, he => by
     simp only [run, List.mem_map] at he
     obtain ⟨r, _, rfl⟩ := he
     simp [dom, origins]
   | .ref i nm, st, e, he => by
-    simp only [run, List.mem_map] at he
-    obtain ⟨r, _, rfl⟩ := he
-    simp [dom, origins, rebind]
+    simp only [run] at he
+    by_cases ht : isTable i = true
+    · simp only [ht, if_true, List.mem_map] at he
+      obtain ⟨r, _, rfl⟩ := he
+      simp [dom, origins]
+    · simp only [ht, Bool.false_eq_true, if_false, List.mem_map] at he
+      obtain ⟨r, _, rfl⟩ := he
+      simp [dom, origins, rebind]
   | .join l r k c, st, e, he => by
     simp only [run] at he
-    have hl := run_dom' len S B db l (st.filterOpt len c)
-    have hr := run_dom' len S B db r (run len S B db l (st.filterOpt len c)).st
+    have hl := run_dom' fix len S B db l (joinCtx fix len st l r k c)
+    have hr := run_dom' fix len S B db r (run fix len S B db l (joinCtx fix len st l r k c)).st
     simp only [origins]
-    have pair : ∀ el ∈ (run len S B db l (st.filterOpt len c)).envs,
-        ∀ er ∈ (run len S B db r (run len S B db l (st.filterOpt len c)).st).envs,
+    have pair : ∀ el ∈ (run fix len S B db l (joinCtx fix len st l r k c)).envs,
+        ∀ er ∈ (run fix len S B db r (run fix len S B db l (joinCtx fix len st l r k c)).st).envs,
         dom (el ++ er) = origins l ++ origins r := fun el hel er her => by rw [dom_append, hl el hel, hr er her]
-    have lnull : ∀ el ∈ (run len S B db l (st.filterOpt len c)).envs, dom (el ++ nullEnv (origins r)) = origins l ++ origins r :=
+    have lnull : ∀ el ∈ (run fix len S B db l (joinCtx fix len st l r k c)).envs,
+        dom (el ++ nullEnv (origins r)) = origins l ++ origins r :=
       fun el hel => by rw [dom_append, hl el hel, dom_nullEnv]
-    have rnull : ∀ er ∈ (run len S B db r (run len S B db l (st.filterOpt len c)).st).envs,
+    have rnull : ∀ er ∈ (run fix len S B db r (run fix len S B db l (joinCtx fix len st l r k c)).st).envs,
         dom (nullEnv (origins l) ++ er) = origins l ++ origins r :=
       fun er her => by rw [dom_append, hr er her, dom_nullEnv]
-    have leftPart : ∀ e ∈ (run len S B db l (st.filterOpt len c)).envs.flatMap (fun el =>
-        if ((List.map (fun er => el ++ er) (run len S B db r (run len S B db l (st.filterOpt len c)).st).envs).filter
+    have leftPart : ∀ e ∈ (run fix len S B db l (joinCtx fix len st l r k c)).envs.flatMap (fun el =>
+        if ((List.map (fun er => el ++ er) (run fix len S B db r (run fix len S B db l (joinCtx fix len st l r k c)).st).envs).filter
             (fun e => holdsOpt S e c)).isEmpty then [el ++ nullEnv (origins r)]
-        else (List.map (fun er => el ++ er) (run len S B db r (run len S B db l (st.filterOpt len c)).st).envs).filter
+        else (List.map (fun er => el ++ er) (run fix len S B db r (run fix len S B db l (joinCtx fix len st l r k c)).st).envs).filter
             (fun e => holdsOpt S e c)), dom e = origins l ++ origins r := by
       intro e he
       obtain ⟨el, hel, he⟩ := List.mem_flatMap.mp he
@@ -98,132 +110,162 @@ theorem run_dom' (len : Bool) (S : Sem) (B : Backend) (db : Db) :
     obtain ⟨r, _, rfl⟩ := he
     simp [dom, origins]
 
+theorem prune_prod {S : Sem} {P : List Feature} {ol orr : List Source} {L' L R' R : List Env}
+    (hL : Prune (Doomed S P) L' L) (hR : Prune (Doomed S P) R' R)
+    (hdl : ∀ e ∈ L, dom e = ol) (hdr : ∀ e ∈ R, dom e = orr) (hdisj : ∀ o ∈ orr, o ∉ ol) :
+    Prune (Doomed S P) (prod L' R') (prod L R) := by
+  unfold prod
+  refine Prune.flatMap _ _ hL ?_ ?_
+  · intro el hel
+    refine Prune.map _ hR ?_
+    intro er her hd
+    exact hd.append_right el (by rw [hdr er her, hdl el hel]; exact hdisj)
+  · intro el _ hd b hb
+    obtain ⟨er, _, rfl⟩ := List.mem_map.mp hb
+    exact hd.append_left er
 
-theorem filterOpt_factors_eq {len : Bool} {st : Segs} {c : FeatureOpt} (h : factorTables len c = [])
-    (x : Source × Feature) : x ∈ (st.filterOpt len c).factors ↔ x ∈ st.factors := by
-  constructor
-  · intro hx
-    rcases filterOpt_factors_mem hx with hx | ⟨p, hp, m, hm, hxm⟩
-    · exact hx
-    · cases c with
-      | none => simp [optList] at hp
-      | some c =>
-        simp only [optList, List.mem_singleton] at hp
-        subst hp
-        simp only [factorTables, hm, List.map_eq_nil_iff] at h
-        simp [h] at hxm
-  · exact filterOpt_factors_mono
+/-- a combination containing a row doomed by the ON condition is no match -/
+theorem not_on_of_doomed {S : Sem} {c : FeatureOpt} {e : Env} (h : Doomed S (optList c) e) : holdsOpt S e c = false := by
+  obtain ⟨p, hp, hf⟩ := h
+  cases c with
+  | none => simp [optList] at hp
+  | some q =>
+    simp only [optList, List.mem_singleton] at hp
+    subst hp
+    have := hf e (Extends.refl e)
+    simpa [holdsOpt, holds] using this
 
-theorem noFactorFor_spec {len : Bool} {P : List Feature} {os : List Source} (h : noFactorFor len P os = true)
-    {o : Source} (ho : o ∈ os) {p : Feature} (hp : p ∈ P) {m : FMap} (hm : factorsOf len p = .ok m) {f : Feature} :
-    (o, f) ∉ m := by
-  intro hf
-  unfold noFactorFor at h
-  rw [List.all_eq_true] at h
-  have := h o ho
-  rw [List.all_eq_true] at this
-  have := this p hp
-  simp only [factorTables, hm, Bool.not_eq_true', List.contains_eq_mem, decide_eq_false_iff_not, List.mem_map, not_exists,
-    not_and] at this
-  exact this (o, f) hf rfl
+/-- the matches of a left row among right rows pruned by the ON condition are the matches among all the right rows -/
+theorem matches_right_pruned {S : Sem} {c : FeatureOpt} {ol orr : List Source} {R' R : List Env}
+    (h : Prune (Doomed S (optList c)) R' R) (hdr : ∀ e ∈ R, dom e = orr) (el : Env) (hdl : dom el = ol)
+    (hdisj : ∀ o ∈ orr, o ∉ ol) :
+    (R'.map (fun er => el ++ er)).filter (fun e => holdsOpt S e c) =
+      (R.map (fun er => el ++ er)).filter (fun e => holdsOpt S e c) := by
+  have hm : Prune (fun e => holdsOpt S e c = false) (R'.map (fun er => el ++ er)) (R.map (fun er => el ++ er)) :=
+    h.map _ (fun er her hd => not_on_of_doomed (hd.append_right el (by rw [hdr er her, hdl]; exact hdisj)))
+  exact hm.filter_eq _ (fun _ _ hd => hd)
 
-theorem justified_nil {len : Bool} {P : List Feature} {st : Segs} {ts ts' : List Source}
-    (hj : Justified len P st ts) (hsub : ∀ t ∈ ts', t ∈ ts) (hn : noFactorFor len P ts' = true) :
-    Justified len [] st ts' := by
-  intro x hx hxt
-  obtain ⟨p, hp, m, hm, hxm⟩ := hj x hx (hsub _ hxt)
-  exact absurd hxm (noFactorFor_spec hn hxt hp hm)
+/-- the same for a right row and pruned left rows -/
+theorem matches_left_pruned {S : Sem} {c : FeatureOpt} {L' L : List Env}
+    (h : Prune (Doomed S (optList c)) L' L) (er : Env) :
+    (L'.map (fun el => el ++ er)).filter (fun e => holdsOpt S e c) =
+      (L.map (fun el => el ++ er)).filter (fun e => holdsOpt S e c) := by
+  have hm : Prune (fun e => holdsOpt S e c = false) (L'.map (fun el => el ++ er)) (L.map (fun el => el ++ er)) :=
+    h.map _ (fun el _ hd => not_on_of_doomed (hd.append_left er))
+  exact hm.filter_eq _ (fun _ _ hd => hd)
 
-/-- `run_prune` for join trees with harmless outer joins (`outerSafe`) -/
-theorem run_prune_outer (len : Bool) (S : Sem) (db : Db) :
-    ∀ (s : Source), wellScoped s = true →
-      (∀ (O : List Source) (P : List Feature) (st : Segs), outerSafe len P s = true → joinsScoped s = true →
-          (origins s).Nodup → (∀ o ∈ origins s, o ∈ O) → noAliasedScan O = true → FactorsWithin st O →
-          Justified len P st (origins s) →
-          Prune (Doomed S P) (run len S .honourRows db s st).envs (run len S .ignore db s st).envs)
-      ∧ (isStmt s = true → outerSafe len [] s = true →
-          ∀ st, (run len S .honourRows db s st).envs = (run len S .ignore db s st).envs)
+/-- **Pushing the offered row filters into the scans only removes rows the pending conditions reject anyway; a
+statement as a whole yields the same rows** — every join kind, both variants of the parser. -/
+theorem run_prune (fix len : Bool) (S : Sem) (db : Db) :
+    ∀ (s : Source), grammarScoped s = true →
+      (∀ (P Q : List Feature) (st : Segs), safe fix len P Q s = true → joinsScoped s = true → (origins s).Nodup →
+          FactorsTables st → FromSeen len Q st → Justified len P st (origins s) →
+          Prune (Doomed S P) (run fix len S .honourRows db s st).envs (run fix len S .ignore db s st).envs)
+      ∧ (isStmt s = true → safe fix len [] [] s = true →
+          ∀ st, (run fix len S .honourRows db s st).envs = (run fix len S .ignore db s st).envs)
   | .table n fs, _ => by
     refine ⟨?_, by simp [isStmt]⟩
-    intro O P st _ _ _ _ _ _ hj
+    intro P Q st _ _ _ _ _ hj
     simp only [run, Backend.honourRows, Backend.ignore]
     refine Prune.map _ (Prune.of_filter (D := fun r => Doomed S P [(Source.table n fs, r)]) _ _ ?_) (fun _ _ h => h)
     intro r _ hr
     exact doomed_of_not_passes len S (by simpa [origins] using hj) hr
   | .ref i nm, hw => by
     refine ⟨?_, by simp [isStmt]⟩
-    intro O P st hos _ _ hO hna hfw _
-    simp only [outerSafe] at hos
-    simp only [wellScoped, Bool.and_eq_true, Bool.or_eq_true] at hw
+    intro P Q st hs _ _ hft hfs _
+    simp only [grammarScoped, Bool.and_eq_true, Bool.or_eq_true] at hw
     simp only [run]
     apply Prune.of_eq
-    congr 1
-    rcases hw.1 with ht | hs
-    · cases i with
-      | table n fs =>
-        have hno : ∀ f, (Source.table n fs, f) ∉ st.factors := by
-          intro f hf
-          exact noAliased_mem hna (hO (.ref (.table n fs) nm) (by simp [origins])) ht (hfw _ hf)
-        simp only [run, Backend.honourRows, Backend.ignore]
-        congr 1
-        apply List.filter_eq_self.mpr
-        intro r _
-        exact passes_of_no_factor S hno r
-      | _ => simp [isTable] at ht
-    · exact (run_prune_outer len S db i hw.2).2 hs hos st
+    by_cases ht : isTable i = true
+    · simp only [safe, ht, if_true] at hs
+      simp only [ht, if_true, Backend.honourRows, Backend.ignore]
+      congr 1
+      apply List.filter_eq_self.mpr
+      intro r _
+      exact passes_of_pred_nil S (ref_pred_nil hft hfs hs) r
+    · simp only [safe, ht, Bool.false_eq_true, if_false] at hs
+      simp only [ht, Bool.false_eq_true, if_false]
+      rcases hw.1 with ht' | hst
+      · exact absurd ht' ht
+      · rw [(run_prune fix len S db i hw.2).2 hst hs st]
   | .join l r k c, hw => by
     refine ⟨?_, by simp [isStmt]⟩
-    intro O P st hos hjs hnd hO hna hfw hj
-    simp only [wellScoped, Bool.and_eq_true] at hw
+    intro P Q st hs hjs hnd hft hfs hj
+    simp only [grammarScoped, Bool.and_eq_true] at hw
     simp only [joinsScoped, Bool.and_eq_true] at hjs
     simp only [origins, List.nodup_append] at hnd
-    have hOl : ∀ o ∈ origins l, o ∈ O := fun o ho => hO o (by simp [origins, ho])
-    have hOr : ∀ o ∈ origins r, o ∈ O := fun o ho => hO o (by simp [origins, ho])
-    have hfw1 : FactorsWithin (st.filterOpt len c) O := by
-      intro x hx
-      rcases filterOpt_factors_mem hx with hx | ⟨p, hp, m, hm, hxm⟩
-      · exact hfw x hx
-      · obtain ⟨n, hn⟩ := factor_table_mem hm hxm
-        have := scopedIn_mem hjs.1.1 (elemsAll_optList hp hn)
-        exact hO _ (by simpa [origins] using this)
-    have hst : (run len S .honourRows db l (st.filterOpt len c)).st = (run len S .ignore db l (st.filterOpt len c)).st :=
-      (run_indep len S S .honourRows .ignore db db l _).1
-    have hfw2 : FactorsWithin (run len S .ignore db l (st.filterOpt len c)).st O := by
-      intro x hx
-      rcases run_factors len S .ignore db l _ hw.1 hjs.1.2 x hx with hx | hx
-      · exact hfw1 x hx
-      · exact hOl _ hx
-    have hdl := run_dom' len S .ignore db l (st.filterOpt len c)
-    have hdr := run_dom' len S .ignore db r (run len S .ignore db l (st.filterOpt len c)).st
     have hdisj : ∀ o ∈ origins r, o ∉ origins l := fun o ho hol => hnd.2.2 o hol o ho rfl
-    -- justification of the factors with the join condition counted as pending (inner joins) …
-    have hj1 : ∀ ts, (∀ t ∈ ts, t ∈ origins (.join l r k c)) →
-        Justified len (optList c ++ P) (st.filterOpt len c) ts := by
+    have hft1 := factorsTables_joinCtx (fix := fix) (len := len) l r k c hft
+    have hfs1 := fromSeen_joinCtx (fix := fix) l r k c hfs
+    have hinv := run_invariants fix len S .ignore db l (optList c ++ Q) _ hw.1 hft1 hfs1
+    have hst : (run fix len S .honourRows db l (joinCtx fix len st l r k c)).st =
+        (run fix len S .ignore db l (joinCtx fix len st l r k c)).st := (run_indep fix len S S .honourRows .ignore db db l _).1
+    have hdl := run_dom' fix len S .ignore db l (joinCtx fix len st l r k c)
+    have hdr := run_dom' fix len S .ignore db r (run fix len S .ignore db l (joinCtx fix len st l r k c)).st
+    -- the right side is visited in the state the left side leaves behind: nothing new for its origins
+    have afterL : ∀ P', Justified len P' (joinCtx fix len st l r k c) (origins r) →
+        Justified len P' (run fix len S .ignore db l (joinCtx fix len st l r k c)).st (origins r) := by
+      intro P' h x hx hxt
+      rcases run_factors fix len S .ignore db l _ hw.1 hjs.1.2 x hx with hx | hx
+      · exact h x hx hxt
+      · exact absurd hxt (fun hxr => hdisj _ hxr hx)
+    -- with the join condition counted as pending (what inner joins need) every factor below is justified
+    have hj1 : ∀ ts, (∀ t ∈ ts, t ∈ origins l ∨ t ∈ origins r) →
+        Justified len (optList c ++ P) (joinCtx fix len st l r k c) ts := by
       intro ts hts x hx hxt
-      rcases filterOpt_factors_mem hx with hx | ⟨p, hp, m, hm, hxm⟩
-      · obtain ⟨p, hp, m, hm, hxm⟩ := hj x hx (hts _ hxt)
+      rcases joinCtx_factors_mem hx with ⟨hx, _⟩ | ⟨p, hp, m, hm, hxm, _⟩
+      · obtain ⟨p, hp, m, hm, hxm⟩ := hj x hx (by simpa [origins] using hts _ hxt)
         exact ⟨p, by simp [hp], m, hm, hxm⟩
       · exact ⟨p, by simp [hp], m, hm, hxm⟩
-    -- … and when it yields no factor at all (outer joins)
-    have hj0 : factorTables len c = [] → ∀ ts, (∀ t ∈ ts, t ∈ origins (.join l r k c)) →
-        Justified len P (st.filterOpt len c) ts := by
-      intro hft ts hts x hx hxt
-      exact hj x ((filterOpt_factors_eq hft x).mp hx) (hts _ hxt)
-    have afterL : ∀ P', Justified len P' (st.filterOpt len c) (origins r) →
-        Justified len P' (run len S .ignore db l (st.filterOpt len c)).st (origins r) := by
-      intro P' h x hx hxt
-      rcases run_factors len S .ignore db l _ hw.1 hjs.1.2 x hx with hx | hx
-      · exact h x hx hxt
-      · exact absurd rfl (hnd.2.2 _ hx _ hxt)
+    -- factors of a side all of whose rows the join keeps: only what was justified before
+    have keep : ∀ (side : List Source), (∀ t ∈ side, t ∈ origins l ∨ t ∈ origins r) →
+        (fix = true → ∀ t ∈ side, t ∈ exempt fix l r k) →
+        (fix = false → noFactorFor len (optList c) side = true) →
+        Justified len P (joinCtx fix len st l r k c) side := by
+      intro side hside hex hno x hx hxt
+      rcases joinCtx_factors_mem hx with ⟨hx, _⟩ | ⟨p, hp, m, hm, hxm, hne⟩
+      · exact hj x hx (by simpa [origins] using hside _ hxt)
+      · cases fix with
+        | true => exact absurd (hex rfl _ hxt) hne
+        | false => exact absurd hxm (noFactorFor_spec' (hno rfl) hxt hp hm)
+    -- factors of a side the join extends with NULLs: only those of the join condition
+    have opt : ∀ (side : List Source), (∀ t ∈ side, t ∈ origins l ∨ t ∈ origins r) →
+        (fix = true → ∀ t ∈ side, t ∈ released fix l r k) →
+        (fix = false → noFactorFor len P side = true) →
+        Justified len (optList c) (joinCtx fix len st l r k c) side := by
+      intro side hside hrel hno x hx hxt
+      rcases joinCtx_factors_mem hx with ⟨hx0, hnr⟩ | ⟨p, hp, m, hm, hxm, _⟩
+      · cases fix with
+        | true => exact absurd (hrel rfl _ hxt) hnr
+        | false =>
+          obtain ⟨p, hp, m, hm, hxm⟩ := hj x hx0 (by simpa [origins] using hside _ hxt)
+          exact absurd hxm (noFactorFor_spec' (hno rfl) hxt hp hm)
+      · exact ⟨p, hp, m, hm, hxm⟩
+    -- a side of a full join: nothing at all
+    have none : ∀ (side : List Source), (∀ t ∈ side, t ∈ origins l ∨ t ∈ origins r) →
+        (fix = true → ∀ t ∈ side, t ∈ released fix l r k ∧ t ∈ exempt fix l r k) →
+        (fix = false → noFactorFor len (optList c ++ P) side = true) →
+        Justified len [] (joinCtx fix len st l r k c) side := by
+      intro side hside hboth hno x hx hxt
+      rcases joinCtx_factors_mem hx with ⟨hx0, hnr⟩ | ⟨p, hp, m, hm, hxm, hne⟩
+      · cases fix with
+        | true => exact absurd (hboth rfl _ hxt).1 hnr
+        | false =>
+          obtain ⟨p, hp, m, hm, hxm⟩ := hj x hx0 (by simpa [origins] using hside _ hxt)
+          exact absurd hxm (noFactorFor_spec' (hno rfl) hxt (by simp [hp]) hm)
+      · cases fix with
+        | true => exact absurd (hboth rfl _ hxt).2 hne
+        | false => exact absurd hxm (noFactorFor_spec' (hno rfl) hxt (by simp [hp]) hm)
+    have inL : ∀ t ∈ origins l, t ∈ origins l ∨ t ∈ origins r := fun _ h => Or.inl h
+    have inR : ∀ t ∈ origins r, t ∈ origins l ∨ t ∈ origins r := fun _ h => Or.inr h
     simp only [run]
     rw [hst]
     cases k with
     | inner =>
-      simp only [outerSafe, Bool.and_eq_true] at hos
-      have iha := (run_prune_outer len S db l hw.1).1 O (optList c ++ P) _ hos.1 hjs.1.2 hnd.1 hOl hna hfw1
-        (hj1 _ (fun t ht => by simp [origins, ht]))
-      have ihb := (run_prune_outer len S db r hw.2).1 O (optList c ++ P) _ hos.2 hjs.2 hnd.2.1 hOr hna hfw2
-        (afterL _ (hj1 _ (fun t ht => by simp [origins, ht])))
+      simp only [safe, Bool.and_eq_true] at hs
+      have iha := (run_prune fix len S db l hw.1).1 (optList c ++ P) _ _ hs.1 hjs.1.2 hnd.1 hft1 hfs1 (hj1 _ inL)
+      have ihb := (run_prune fix len S db r hw.2).1 (optList c ++ P) _ _ hs.2 hjs.2 hnd.2.1 hinv.1 hinv.2
+        (afterL _ (hj1 _ inR))
       have hfil := (prune_prod iha ihb hdl hdr hdisj).filter (fun e => holdsOpt S e c)
       refine (hfil.mono ?_)
       intro e he hd
@@ -232,11 +274,10 @@ theorem run_prune_outer (len : Bool) (S : Sem) (db : Db) :
       | none => simpa [optList] using hd
       | some c => exact Doomed.not_holds (by simpa [optList] using hd) (by simpa [holdsOpt] using hon)
     | cross =>
-      simp only [outerSafe, Bool.and_eq_true] at hos
-      have iha := (run_prune_outer len S db l hw.1).1 O (optList c ++ P) _ hos.1 hjs.1.2 hnd.1 hOl hna hfw1
-        (hj1 _ (fun t ht => by simp [origins, ht]))
-      have ihb := (run_prune_outer len S db r hw.2).1 O (optList c ++ P) _ hos.2 hjs.2 hnd.2.1 hOr hna hfw2
-        (afterL _ (hj1 _ (fun t ht => by simp [origins, ht])))
+      simp only [safe, Bool.and_eq_true] at hs
+      have iha := (run_prune fix len S db l hw.1).1 (optList c ++ P) _ _ hs.1 hjs.1.2 hnd.1 hft1 hfs1 (hj1 _ inL)
+      have ihb := (run_prune fix len S db r hw.2).1 (optList c ++ P) _ _ hs.2 hjs.2 hnd.2.1 hinv.1 hinv.2
+        (afterL _ (hj1 _ inR))
       have hfil := (prune_prod iha ihb hdl hdr hdisj).filter (fun e => holdsOpt S e c)
       refine (hfil.mono ?_)
       intro e he hd
@@ -245,86 +286,89 @@ theorem run_prune_outer (len : Bool) (S : Sem) (db : Db) :
       | none => simpa [optList] using hd
       | some c => exact Doomed.not_holds (by simpa [optList] using hd) (by simpa [holdsOpt] using hon)
     | left =>
-      simp only [outerSafe, Bool.and_eq_true, List.isEmpty_iff] at hos
-      have hjl := hj0 hos.1.1.1 (origins l) (fun t ht => by simp [origins, ht])
-      have hjr : Justified len [] (st.filterOpt len c) (origins r) :=
-        justified_nil (hj0 hos.1.1.1 (origins r) (fun t ht => by simp [origins, ht])) (fun t ht => ht) hos.1.1.2
-      have iha := (run_prune_outer len S db l hw.1).1 O P _ hos.1.2 hjs.1.2 hnd.1 hOl hna hfw1 hjl
-      have ihb := ((run_prune_outer len S db r hw.2).1 O [] _ hos.2 hjs.2 hnd.2.1 hOr hna hfw2 (afterL _ hjr)).eq_of_false
-        (not_doomed_nil S)
-      rw [ihb]
+      simp only [safe, Bool.and_eq_true, Bool.or_eq_true] at hs
+      have hjl : Justified len P (joinCtx fix len st l r .left c) (origins l) :=
+        keep _ inL (fun hf t ht => by simpa [exempt, hf] using ht)
+          (fun hf => hs.1.1.elim (fun h => by simp [hf] at h) (fun h => h.1))
+      have hjr : Justified len (optList c) (joinCtx fix len st l r .left c) (origins r) :=
+        opt _ inR (fun hf t ht => by simpa [released, hf] using ht)
+          (fun hf => hs.1.1.elim (fun h => by simp [hf] at h) (fun h => h.2))
+      have iha := (run_prune fix len S db l hw.1).1 P _ _ hs.1.2 hjs.1.2 hnd.1 hft1 hfs1 hjl
+      have ihb := (run_prune fix len S db r hw.2).1 (optList c) _ _ hs.2 hjs.2 hnd.2.1 hinv.1 hinv.2 (afterL _ hjr)
       simp only [joinRows]
-      refine Prune.flatMap _ _ iha (fun _ _ => Prune.refl _) ?_
-      intro el _ hd b hb
-      split at hb
-      · simp only [List.mem_singleton] at hb
-        exact hb ▸ hd.append_left _
-      · obtain ⟨er, _, rfl⟩ := List.mem_map.mp (List.mem_filter.mp hb).1
-        exact hd.append_left _
+      refine Prune.flatMap _ _ iha (fun el hel => Prune.of_eq ?_) ?_
+      · simp only [matches_right_pruned ihb hdr el (hdl el hel) hdisj]
+      · intro el _ hd b hb
+        split at hb
+        · simp only [List.mem_singleton] at hb
+          exact hb ▸ hd.append_left _
+        · obtain ⟨er, _, rfl⟩ := List.mem_map.mp (List.mem_filter.mp hb).1
+          exact hd.append_left _
     | right =>
-      simp only [outerSafe, Bool.and_eq_true, List.isEmpty_iff] at hos
-      have hjl : Justified len [] (st.filterOpt len c) (origins l) :=
-        justified_nil (hj0 hos.1.1.1 (origins l) (fun t ht => by simp [origins, ht])) (fun t ht => ht) hos.1.1.2
-      have hjr := hj0 hos.1.1.1 (origins r) (fun t ht => by simp [origins, ht])
-      have iha := ((run_prune_outer len S db l hw.1).1 O [] _ hos.1.2 hjs.1.2 hnd.1 hOl hna hfw1 hjl).eq_of_false
-        (not_doomed_nil S)
-      have ihb := (run_prune_outer len S db r hw.2).1 O P _ hos.2 hjs.2 hnd.2.1 hOr hna hfw2 (afterL _ hjr)
-      rw [iha]
+      simp only [safe, Bool.and_eq_true, Bool.or_eq_true] at hs
+      have hjl : Justified len (optList c) (joinCtx fix len st l r .right c) (origins l) :=
+        opt _ inL (fun hf t ht => by simpa [released, hf] using ht)
+          (fun hf => hs.1.1.elim (fun h => by simp [hf] at h) (fun h => h.2))
+      have hjr : Justified len P (joinCtx fix len st l r .right c) (origins r) :=
+        keep _ inR (fun hf t ht => by simpa [exempt, hf] using ht)
+          (fun hf => hs.1.1.elim (fun h => by simp [hf] at h) (fun h => h.1))
+      have iha := (run_prune fix len S db l hw.1).1 (optList c) _ _ hs.1.2 hjs.1.2 hnd.1 hft1 hfs1 hjl
+      have ihb := (run_prune fix len S db r hw.2).1 P _ _ hs.2 hjs.2 hnd.2.1 hinv.1 hinv.2 (afterL _ hjr)
       simp only [joinRows]
-      refine Prune.flatMap _ _ ihb (fun _ _ => Prune.refl _) ?_
-      intro er her hd b hb
-      split at hb
-      · simp only [List.mem_singleton] at hb
-        exact hb ▸ hd.append_right _ (by rw [hdr er her, dom_nullEnv]; exact hdisj)
-      · obtain ⟨el, hel, rfl⟩ := List.mem_map.mp (List.mem_filter.mp hb).1
-        exact hd.append_right _ (by rw [hdr er her, hdl el hel]; exact hdisj)
+      refine Prune.flatMap _ _ ihb (fun er _ => Prune.of_eq ?_) ?_
+      · simp only [matches_left_pruned iha er]
+      · intro er her hd b hb
+        split at hb
+        · simp only [List.mem_singleton] at hb
+          exact hb ▸ hd.append_right _ (by rw [hdr er her, dom_nullEnv]; exact hdisj)
+        · obtain ⟨el, hel, rfl⟩ := List.mem_map.mp (List.mem_filter.mp hb).1
+          exact hd.append_right _ (by rw [hdr er her, hdl el hel]; exact hdisj)
     | full =>
-      simp only [outerSafe, Bool.and_eq_true, List.isEmpty_iff] at hos
-      have hjl : Justified len [] (st.filterOpt len c) (origins l) :=
-        justified_nil (hj0 hos.1.1.1.1 (origins l) (fun t ht => by simp [origins, ht])) (fun t ht => ht) hos.1.1.1.2
-      have hjr : Justified len [] (st.filterOpt len c) (origins r) :=
-        justified_nil (hj0 hos.1.1.1.1 (origins r) (fun t ht => by simp [origins, ht])) (fun t ht => ht) hos.1.1.2
-      have iha := ((run_prune_outer len S db l hw.1).1 O [] _ hos.1.2 hjs.1.2 hnd.1 hOl hna hfw1 hjl).eq_of_false
+      simp only [safe, Bool.and_eq_true, Bool.or_eq_true] at hs
+      have hno : fix = false → noFactorFor len (optList c ++ P) (origins l ++ origins r) = true :=
+        fun hf => hs.1.1.elim (fun h => by simp [hf] at h) (fun h => h)
+      have hsub : ∀ {side : List Source}, (∀ t ∈ side, t ∈ origins l ∨ t ∈ origins r) → fix = false →
+          noFactorFor len (optList c ++ P) side = true := by
+        intro side hside hf
+        have := hno hf
+        unfold noFactorFor at this ⊢
+        rw [List.all_eq_true] at this ⊢
+        exact fun o ho => this o (by simpa using hside o ho)
+      have hjl : Justified len [] (joinCtx fix len st l r .full c) (origins l) :=
+        none _ inL (fun hf t ht => by simp [released, exempt, hf, ht]) (hsub inL)
+      have hjr : Justified len [] (joinCtx fix len st l r .full c) (origins r) :=
+        none _ inR (fun hf t ht => by simp [released, exempt, hf, ht]) (hsub inR)
+      have iha := ((run_prune fix len S db l hw.1).1 [] _ _ hs.1.2 hjs.1.2 hnd.1 hft1 hfs1 hjl).eq_of_false
         (not_doomed_nil S)
-      have ihb := ((run_prune_outer len S db r hw.2).1 O [] _ hos.2 hjs.2 hnd.2.1 hOr hna hfw2 (afterL _ hjr)).eq_of_false
+      have ihb := ((run_prune fix len S db r hw.2).1 [] _ _ hs.2 hjs.2 hnd.2.1 hinv.1 hinv.2 (afterL _ hjr)).eq_of_false
         (not_doomed_nil S)
       rw [iha, ihb]
       exact Prune.refl _
   | .set l r k, hw => by
-    simp only [wellScoped, Bool.and_eq_true] at hw
-    have heq : outerSafe len [] (.set l r k) = true →
-        ∀ st, (run len S .honourRows db (.set l r k) st).envs = (run len S .ignore db (.set l r k) st).envs := by
+    simp only [grammarScoped, Bool.and_eq_true] at hw
+    have heq : safe fix len [] [] (.set l r k) = true →
+        ∀ st, (run fix len S .honourRows db (.set l r k) st).envs = (run fix len S .ignore db (.set l r k) st).envs := by
       intro hos st
-      simp only [outerSafe, Bool.and_eq_true] at hos
+      simp only [safe, Bool.and_eq_true] at hos
       simp only [run]
-      rw [(run_prune_outer len S db l hw.1.2).2 hw.1.1.1 hos.1 st, (run_indep len S S .honourRows .ignore db db l st).1,
-        (run_prune_outer len S db r hw.2).2 hw.1.1.2 hos.2 _]
-    exact ⟨fun _ _ st hos _ _ _ _ _ _ => Prune.of_eq (heq (by simpa [outerSafe] using hos) st), fun _ => heq⟩
+      rw [(run_prune fix len S db l hw.1.2).2 hw.1.1.1 hos.1 st, (run_indep fix len S S .honourRows .ignore db db l st).1,
+        (run_prune fix len S db r hw.2).2 hw.1.1.2 hos.2 _]
+    exact ⟨fun _ _ st hos _ _ _ _ _ => Prune.of_eq (heq (by simpa [safe] using hos) st), fun _ => heq⟩
   | .query src sel pre grp post ord rows, hw => by
-    simp only [wellScoped, Bool.and_eq_true, decide_eq_true_eq] at hw
-    have heq : outerSafe len [] (.query src sel pre grp post ord rows) = true →
-        ∀ st, (run len S .honourRows db (.query src sel pre grp post ord rows) st).envs =
-        (run len S .ignore db (.query src sel pre grp post ord rows) st).envs := by
+    simp only [grammarScoped, Bool.and_eq_true, decide_eq_true_eq] at hw
+    have heq : safe fix len [] [] (.query src sel pre grp post ord rows) = true →
+        ∀ st, (run fix len S .honourRows db (.query src sel pre grp post ord rows) st).envs =
+        (run fix len S .ignore db (.query src sel pre grp post ord rows) st).envs := by
       intro hos st
-      simp only [outerSafe] at hos
+      simp only [safe] at hos
       simp only [run]
-      have hp := (run_prune_outer len S db src hw.2).1 (origins src) (optList pre)
-        (queryCtx len st.err src sel pre grp post ord) hos hw.1.1.1.2 hw.1.1.1.1 (fun o ho => ho) hw.1.2
-        (within_queryCtx len st.err src sel pre grp post ord hw.1.1.2)
-        (justified_queryCtx len st.err src sel pre grp post ord (origins src))
-      have hk := hp.filter_eq (fun e => holdsOpt S e pre) (by
-        intro e _ hd
-        cases pre with
-        | none =>
-          obtain ⟨p, hp, _⟩ := hd
-          simp [optList] at hp
-        | some p =>
-          obtain ⟨q, hq, hf⟩ := hd
-          simp only [optList, List.mem_singleton] at hq
-          subst hq
-          have := hf e (Extends.refl e)
-          simpa [holdsOpt, holds] using this)
+      have hp := (run_prune fix len S db src hw.2).1 (optList pre) (optList pre)
+        (queryCtx fix len st.err src sel pre grp post ord) hos hw.1.2 hw.1.1
+        (factorsTables_queryCtx fix len st.err src sel pre grp post ord)
+        (fromSeen_queryCtx fix len st.err src sel pre grp post ord)
+        (justified_queryCtx fix len st.err src sel pre grp post ord (origins src))
+      have hk := hp.filter_eq (fun e => holdsOpt S e pre) (fun e _ hd => not_on_of_doomed hd)
       rw [hk]
-    exact ⟨fun _ _ st hos _ _ _ _ _ _ => Prune.of_eq (heq (by simpa [outerSafe] using hos) st), fun _ => heq⟩
+    exact ⟨fun _ _ st hos _ _ _ _ _ => Prune.of_eq (heq (by simpa [safe] using hos) st), fun _ => heq⟩
 
 end ForML.PushDown
